@@ -1,4 +1,324 @@
-(* C07 - copies are faithful and independent. *)
-From Fiddle Require Import PyBase PySlice Sig ArgStore PyCall Heap Traverse Copy Anchors.
+(* C07 - copies are faithful and independent.
+   Deep copies (copy.deepcopy, pickle round trip) are runs of the memoized traversal with
+   Copy.copy_node on a well-formed heap with a valid root; shallow copies / casts are Copy.shallow.
+   The correspondence checks compare object graphs with the isomorphism checker Traverse.iso,
+   whose soundness is the first group of theorems.
+   Proofs: theories/Iso_proofs.v, theories/Copy_proofs.v (on top of Traverse_proofs.v). *)
+From Fiddle Require Import PyBase PySlice Sig ArgStore PyCall Heap Traverse Build Build_stmt
+  Traverse_proofs C08Check Copy Iso_proofs Copy_proofs Anchors.
+From Coq Require Import List Arith.
+Import ListNotations.
+Local Open Scope nat_scope.
 
-Example C07_placeholder : True. Proof. exact I. Qed.
+(* ------------------------------------------------------------------------------------------ *)
+(* A. the isomorphism checker is sound *)
+
+Theorem C07_iso_sound : forall h1 h2 fuel r1 r2 m,
+  iso h1 h2 fuel [] r1 r2 = Some m ->
+  bij_wf m /\ simulates h1 h2 m /\ rel_ref m r1 r2.
+Proof. exact iso_sound. Qed.
+Print Assumptions C07_iso_sound.
+
+(* started from any bijection m0: the result extends m0, stays one-to-one if m0 was, every pair
+   it adds is simulated with respect to the result, and the two references correspond *)
+Theorem C07_iso_sound_gen : forall h1 h2 fuel m0 r1 r2 m,
+  iso h1 h2 fuel m0 r1 r2 = Some m ->
+  (exists ext, m = ext ++ m0 /\ (bij_wf m0 -> bij_wf m) /\
+               (forall i j, In (i, j) ext -> sim_pair h1 h2 m i j)) /\
+  rel_ref m r1 r2.
+Proof. exact iso_sound_gen. Qed.
+Print Assumptions C07_iso_sound_gen.
+
+Theorem C07_iso_sound_from : forall h1 h2 fuel m0 r1 r2 m,
+  bij_wf m0 -> simulates h1 h2 m0 -> iso h1 h2 fuel m0 r1 r2 = Some m ->
+  incl m0 m /\ bij_wf m /\ simulates h1 h2 m /\ rel_ref m r1 r2.
+Proof. exact iso_sound_from. Qed.
+Print Assumptions C07_iso_sound_from.
+
+Theorem C07_iso_b_sound : forall h1 h2 r1 r2,
+  iso_b h1 h2 r1 r2 = true -> exists m, bij_wf m /\ simulates h1 h2 m /\ rel_ref m r1 r2.
+Proof. exact iso_b_sound. Qed.
+Print Assumptions C07_iso_b_sound.
+
+Theorem C07_shape_refs_determine : forall n1 n2,
+  shape n1 = shape n2 -> refs_of n1 = refs_of n2 -> n1 = n2.
+Proof. exact shape_refs_determine. Qed.
+Print Assumptions C07_shape_refs_determine.
+
+Theorem C07_simulates_same_refs : forall h1 h2 m i j n1 n2,
+  simulates h1 h2 m -> In (i, j) m -> nth_error h1 i = Some n1 -> nth_error h2 j = Some n2 ->
+  refs_of n1 = refs_of n2 -> n1 = n2.
+Proof. exact simulates_same_refs. Qed.
+Print Assumptions C07_simulates_same_refs.
+
+(* ------------------------------------------------------------------------------------------ *)
+(* B. deep copy *)
+
+Theorem C07_deepcopy_total : forall e pickle h r s res,
+  wf_b e h = true -> root_ok h r -> mrun e h (copy_node e pickle) r = (s, res) ->
+  exists r', res = inl r'.
+Proof. exact deepcopy_total. Qed.
+Print Assumptions C07_deepcopy_total.
+
+Theorem C07_deepcopy_pure : forall e pickle h r s res,
+  wf_b e h = true -> root_ok h r -> mrun e h (copy_node e pickle) r = (s, res) ->
+  firstn (length h) (out s) = h /\ length h <= length (out s).
+Proof. exact deepcopy_pure. Qed.
+Print Assumptions C07_deepcopy_pure.
+
+Theorem C07_deepcopy_once : forall e pickle h r s res,
+  wf_b e h = true -> root_ok h r -> mrun e h (copy_node e pickle) r = (s, res) ->
+  NoDup (log s).
+Proof. exact deepcopy_once. Qed.
+Print Assumptions C07_deepcopy_once.
+
+Theorem C07_deepcopy_memo_function : forall e pickle h r s res,
+  wf_b e h = true -> root_ok h r -> mrun e h (copy_node e pickle) r = (s, res) ->
+  NoDup (map fst (memo s)) /\ (forall i, In i (log s) <-> In i (map fst (memo s))).
+Proof. exact deepcopy_memo_function. Qed.
+Print Assumptions C07_deepcopy_memo_function.
+
+Theorem C07_deepcopy_exactly_creach : forall e pickle h r s res,
+  wf_b e h = true -> root_ok h r -> mrun e h (copy_node e pickle) r = (s, res) ->
+  forall i, In i (log s) <-> creach e h r i.
+Proof. exact deepcopy_exactly_creach. Qed.
+Print Assumptions C07_deepcopy_exactly_creach.
+
+Theorem C07_deepcopy_root_image : forall e pickle h r s res,
+  wf_b e h = true -> root_ok h r -> mrun e h (copy_node e pickle) r = (s, res) ->
+  forall r', res = inl r' -> map_ref (memo s) r = Some r'.
+Proof. exact deepcopy_root_image. Qed.
+Print Assumptions C07_deepcopy_root_image.
+
+(* copy_kept pickle n rs: n is a tuple all of whose children came back identical (deepcopy only),
+   or a non-traversable node other than a set *)
+Theorem C07_deepcopy_mirrors : forall e pickle h r s res,
+  wf_b e h = true -> root_ok h r -> mrun e h (copy_node e pickle) r = (s, res) ->
+  forall i n ri,
+    In i (log s) -> nth_error h i = Some n -> memo_get (memo s) i = Some ri ->
+    exists rs, map (map_ref (memo s)) (children e n) = map Some rs /\
+      ((ri = RP i /\
+        ((pickle = false /\ exists xs, n = NTuple xs /\ rs = xs) \/
+         (traversable n = false /\ is_set n = false))) \/
+       (exists k, ri = RP k /\ length h <= k /\
+                  nth_error (out s) k = Some (with_children e n rs) /\
+                  ~ ((pickle = false /\ exists xs, n = NTuple xs /\ rs = xs) \/
+                     (traversable n = false /\ is_set n = false)))).
+Proof. exact deepcopy_mirrors. Qed.
+Print Assumptions C07_deepcopy_mirrors.
+
+Theorem C07_deepcopy_set : forall e pickle h r s res,
+  wf_b e h = true -> root_ok h r -> mrun e h (copy_node e pickle) r = (s, res) ->
+  forall i fz xs ri,
+    nth_error h i = Some (NSet fz xs) -> memo_get (memo s) i = Some ri ->
+    exists k, ri = RP k /\ length h <= k /\ nth_error (out s) k = Some (NSet fz xs).
+Proof. exact deepcopy_set. Qed.
+Print Assumptions C07_deepcopy_set.
+
+(* every result is the object itself or a new object; distinct objects have distinct results *)
+Theorem C07_deepcopy_fresh_distinct : forall e pickle h r s res,
+  wf_b e h = true -> root_ok h r -> mrun e h (copy_node e pickle) r = (s, res) ->
+  forall i j ri rj,
+    memo_get (memo s) i = Some ri -> memo_get (memo s) j = Some rj ->
+    ((ri = RP i /\ i < length h) \/ (exists k, ri = RP k /\ length h <= k < length (out s))) /\
+    (i <> j -> ri <> rj).
+Proof. exact deepcopy_fresh_distinct. Qed.
+Print Assumptions C07_deepcopy_fresh_distinct.
+
+(* nothing but copies of processed objects is allocated *)
+Theorem C07_deepcopy_covered : forall e pickle h r s res,
+  wf_b e h = true -> root_ok h r -> mrun e h (copy_node e pickle) r = (s, res) ->
+  forall k, length h <= k < length (out s) -> exists i, memo_get (memo s) i = Some (RP k).
+Proof. exact deepcopy_covered. Qed.
+Print Assumptions C07_deepcopy_covered.
+
+(* FAITHFUL.  For configurations in canonical encoding (node_canonical: Buildable arguments stored
+   in signature order, no empty tag sets, no built objects; this is the encoding the harness
+   emits, checkable with heap_canonical_b), the memo is a one-to-one correspondence between the
+   originals and their copies under which corresponding nodes have the same data and
+   corresponding references, and it relates the root to the result.  Without the hypothesis the
+   statement is false: C07_deepcopy_faithful_needs_canonical. *)
+Theorem C07_deepcopy_faithful_partial : forall e pickle h r s res,
+  wf_b e h = true -> root_ok h r -> mrun e h (copy_node e pickle) r = (s, res) ->
+  (forall i n, creach e h r i -> nth_error h i = Some n -> node_canonical e n) ->
+  forall r', res = inl r' ->
+    bij_wf (memo_bij (memo s)) /\ simulates h (out s) (memo_bij (memo s)) /\
+    rel_ref (memo_bij (memo s)) r r'.
+Proof. exact deepcopy_faithful. Qed.
+Print Assumptions C07_deepcopy_faithful_partial.
+
+(* INDEPENDENT.  Whatever the copy reaches, through any stored reference, is a new object, or an
+   old object that is legitimately shared: a tuple that deepcopy returned as it is (then
+   everything below it is shared and immutable too) or an opaque leaf object.  After a pickle
+   round trip only opaque leaves.  Without the hypothesis the statement is false:
+   C07_deepcopy_independent_needs_canonical. *)
+Theorem C07_deepcopy_independent_partial : forall e pickle h r s res,
+  wf_b e h = true -> root_ok h r -> mrun e h (copy_node e pickle) r = (s, res) ->
+  (forall i n, creach e h r i -> nth_error h i = Some n -> node_canonical e n) ->
+  forall r', res = inl r' ->
+  forall k, rreach (out s) r' k ->
+    length h <= k \/
+    (k < length h /\ memo_get (memo s) k = Some (RP k) /\
+     exists n, nth_error h k = Some n /\
+               ((pickle = false /\ exists xs, n = NTuple xs) \/ exists x, n = NOpaque x)).
+Proof. exact deepcopy_independent. Qed.
+Print Assumptions C07_deepcopy_independent_partial.
+
+Theorem C07_heap_canonical_b_spec : forall e h,
+  heap_canonical_b e h = true ->
+  forall (r : ref) i n, creach e h r i -> nth_error h i = Some n -> node_canonical e n.
+Proof. exact heap_canonical_b_spec. Qed.
+Print Assumptions C07_heap_canonical_b_spec.
+
+Theorem C07_deepcopy_faithful_needs_canonical :
+  exists e pickle h r s r',
+    wf_b e h = true /\ root_ok h r /\ mrun e h (copy_node e pickle) r = (s, inl r') /\
+    ~ simulates h (out s) (memo_bij (memo s)) /\ iso_b (out s) (out s) r r' = false.
+Proof. exact deepcopy_faithful_needs_canonical. Qed.
+Print Assumptions C07_deepcopy_faithful_needs_canonical.
+
+Theorem C07_deepcopy_independent_needs_canonical :
+  exists e pickle h r s r' k,
+    wf_b e h = true /\ root_ok h r /\ mrun e h (copy_node e pickle) r = (s, inl r') /\
+    rreach (out s) r' k /\ k < length h /\ memo_get (memo s) k = None /\
+    nth_error h k = Some (NList []).
+Proof. exact deepcopy_independent_needs_canonical. Qed.
+Print Assumptions C07_deepcopy_independent_needs_canonical.
+
+(* ------------------------------------------------------------------------------------------ *)
+(* C. shallow copy and cast *)
+
+Theorem C07_shallow_spec : forall e k' h r h' r',
+  shallow e k' h r = Some (h', r') ->
+  exists i kind fn args tags,
+    r = RP i /\ nth_error h i = Some (NBuildable kind fn args tags) /\
+    r' = RP (length h) /\ firstn (length h) h' = h /\
+    nth_error h' (length h) =
+      Some (NBuildable (match k' with Some x => x | None => kind end) fn (flat_args e fn args)
+              (filter (fun kt => match snd kt with [] => false | _ => true end) tags)).
+Proof. exact shallow_spec. Qed.
+Print Assumptions C07_shallow_spec.
+
+Theorem C07_shallow_one_node : forall e k' h r h' r',
+  shallow e k' h r = Some (h', r') -> exists nd, h' = h ++ [nd].
+Proof. exact shallow_one_node. Qed.
+Print Assumptions C07_shallow_one_node.
+
+(* ------------------------------------------------------------------------------------------ *)
+(* D. identity rebuild (re-exported for C08) *)
+
+Theorem C07_rebuild_total : forall e h r s res,
+  wf_b e h = true -> root_ok h r -> mrun e h (rebuild_node e) r = (s, res) ->
+  exists r', res = inl r'.
+Proof. exact rebuild_total. Qed.
+Print Assumptions C07_rebuild_total.
+
+Theorem C07_rebuild_pure : forall e h r s res,
+  wf_b e h = true -> root_ok h r -> mrun e h (rebuild_node e) r = (s, res) ->
+  firstn (length h) (out s) = h /\ length h <= length (out s).
+Proof. exact rebuild_pure. Qed.
+Print Assumptions C07_rebuild_pure.
+
+Theorem C07_rebuild_once : forall e h r s res,
+  wf_b e h = true -> root_ok h r -> mrun e h (rebuild_node e) r = (s, res) ->
+  NoDup (log s).
+Proof. exact rebuild_once. Qed.
+Print Assumptions C07_rebuild_once.
+
+Theorem C07_rebuild_memo_function : forall e h r s res,
+  wf_b e h = true -> root_ok h r -> mrun e h (rebuild_node e) r = (s, res) ->
+  NoDup (map fst (memo s)) /\ (forall i, In i (log s) <-> In i (map fst (memo s))).
+Proof. exact rebuild_memo_function. Qed.
+Print Assumptions C07_rebuild_memo_function.
+
+Theorem C07_rebuild_exactly_creach : forall e h r s res,
+  wf_b e h = true -> root_ok h r -> mrun e h (rebuild_node e) r = (s, res) ->
+  forall i, In i (log s) <-> creach e h r i.
+Proof. exact rebuild_exactly_creach. Qed.
+Print Assumptions C07_rebuild_exactly_creach.
+
+Theorem C07_rebuild_root_image : forall e h r s res,
+  wf_b e h = true -> root_ok h r -> mrun e h (rebuild_node e) r = (s, res) ->
+  forall r', res = inl r' -> map_ref (memo s) r = Some r'.
+Proof. exact rebuild_root_image. Qed.
+Print Assumptions C07_rebuild_root_image.
+
+Theorem C07_rebuild_mirrors : forall e h r s res,
+  wf_b e h = true -> root_ok h r -> mrun e h (rebuild_node e) r = (s, res) ->
+  forall i n ri,
+    In i (log s) -> nth_error h i = Some n -> memo_get (memo s) i = Some ri ->
+    exists rs, map (map_ref (memo s)) (children e n) = map Some rs /\
+      if traversable n
+      then exists k, ri = RP k /\ length h <= k /\ nth_error (out s) k = Some (with_children e n rs)
+      else ri = RP i.
+Proof. exact rebuild_mirrors. Qed.
+Print Assumptions C07_rebuild_mirrors.
+
+Theorem C07_rebuild_fresh_distinct : forall e h r s res,
+  wf_b e h = true -> root_ok h r -> mrun e h (rebuild_node e) r = (s, res) ->
+  forall i j ri rj,
+    memo_get (memo s) i = Some ri -> memo_get (memo s) j = Some rj ->
+    ((ri = RP i /\ i < length h) \/ (exists k, ri = RP k /\ length h <= k < length (out s))) /\
+    (i <> j -> ri <> rj).
+Proof. exact rebuild_fresh_distinct. Qed.
+Print Assumptions C07_rebuild_fresh_distinct.
+
+Theorem C07_rebuild_covered : forall e h r s res,
+  wf_b e h = true -> root_ok h r -> mrun e h (rebuild_node e) r = (s, res) ->
+  forall k, length h <= k < length (out s) -> exists i, memo_get (memo s) i = Some (RP k).
+Proof. exact rebuild_covered. Qed.
+Print Assumptions C07_rebuild_covered.
+
+Theorem C07_rebuild_faithful_partial : forall e h r s res,
+  wf_b e h = true -> root_ok h r -> mrun e h (rebuild_node e) r = (s, res) ->
+  (forall i n, creach e h r i -> nth_error h i = Some n -> node_canonical e n) ->
+  forall r', res = inl r' ->
+    bij_wf (memo_bij (memo s)) /\ simulates h (out s) (memo_bij (memo s)) /\
+    rel_ref (memo_bij (memo s)) r r'.
+Proof. exact rebuild_faithful. Qed.
+Print Assumptions C07_rebuild_faithful_partial.
+
+Theorem C07_rebuild_independent_partial : forall e h r s res,
+  wf_b e h = true -> root_ok h r -> mrun e h (rebuild_node e) r = (s, res) ->
+  (forall i n, creach e h r i -> nth_error h i = Some n -> node_canonical e n) ->
+  forall r', res = inl r' ->
+  forall k, rreach (out s) r' k ->
+    length h <= k \/
+    (k < length h /\ memo_get (memo s) k = Some (RP k) /\
+     exists n, nth_error h k = Some n /\
+               ((exists fz xs, n = NSet fz xs) \/ exists x, n = NOpaque x)).
+Proof. exact rebuild_independent. Qed.
+Print Assumptions C07_rebuild_independent_partial.
+
+(* ------------------------------------------------------------------------------------------ *)
+(* E. non-vacuity *)
+
+Theorem C07_deepcopy_example :
+  wf_b ex_env ex_heap = true /\
+  (let '(s, res) := deepcopy ex_env false ex_heap (RP 5) in
+   res = inl (RP 10) /\
+   iso_b (out s) (out s) (RP 5) (RP 10) = true /\
+   memo_get (memo s) 0 = Some (RP 6) /\
+   nth_error (out s) 7 = Some (NBuildable BConfig 11%N [(KName 1%N, RP 6)] []) /\
+   nth_error (out s) 8 =
+     Some (NBuildable BPartial 12%N [(KName 2%N, RP 6); (KName 3%N, RP 2)] [(KName 2%N, [5%N])]) /\
+   memo_get (memo s) 2 = Some (RP 2) /\
+   firstn 6 (out s) = ex_heap) /\
+  (let '(s, res) := deepcopy ex_env true ex_heap (RP 5) in
+   res = inl (RP 11) /\
+   iso_b (out s) (out s) (RP 5) (RP 11) = true /\
+   memo_get (memo s) 2 = Some (RP 8) /\
+   firstn 6 (out s) = ex_heap).
+Proof. exact deepcopy_example. Qed.
+Print Assumptions C07_deepcopy_example.
+
+Theorem C07_deepcopy_example_sharing_matters :
+  let '(s, res) := deepcopy ex_env false ex_heap (RP 5) in
+  iso_b (out s) ex_heap_unshared (RP 10) (RP 6) = false /\
+  iso_b ex_heap ex_heap_unshared (RP 5) (RP 6) = false.
+Proof. exact deepcopy_example_sharing_matters. Qed.
+Print Assumptions C07_deepcopy_example_sharing_matters.
+
+Theorem C07_ex_heap_canonical : heap_canonical_b ex_env ex_heap = true.
+Proof. exact ex_heap_canonical. Qed.
+Print Assumptions C07_ex_heap_canonical.
